@@ -595,6 +595,12 @@ func (s *Server) Serve(ctx context.Context, ln net.Listener) error {
 		s.logger.Printf("remote connection from %s", remoteAddr)
 		go func() {
 			defer conn.Close()
+			defer func() {
+				// A bug triggered by one peer must not take down the other sessions.
+				if r := recover(); r != nil {
+					s.logger.Printf("[%s] panic: %v", remoteAddr, r)
+				}
+			}()
 			c := NewConnection(conn, conn, remoteAddr.String())
 			if err := s.HandleDaemonConn(ctx, c); err != nil {
 				s.logger.Printf("[%s] handle: %v", remoteAddr, err)
